@@ -121,7 +121,7 @@ inductive Obs where
   | exitcb (j : Nat) (e : Option Nat)
   | probeCtx (k : Nat) (cancelled : Bool)
   | probeW (a : Nat) (closed : Bool)
-  | quiesce (pend run : List Nat)
+  | quiesce (pend run live : List Nat)
 deriving DecidableEq, Repr, Hashable
 
 /-- lines logged from inside the final critical section (scripted backoff, exit callbacks) -/
@@ -150,7 +150,7 @@ inductive Ev where
   | timerCS (t : Nat)
   | probeCtx (k : Nat) (cancelled : Bool)
   | probeW (a : Nat) (closed : Bool)
-  | quiesce (pend run : List Nat)
+  | quiesce (pend run live : List Nat)
 deriving DecidableEq, Repr, Hashable
 
 structure St where
@@ -569,7 +569,7 @@ def stepI (s : St) : Ev → Option St
        | .finished, some p => if instClosed s p = b then some s else none
        | _, _ => none)
     | none => none
-  | .quiesce _ _ => none
+  | .quiesce _ _ _ => none
 
 /-- instance `n` is closed, its final section is still to come, and its record is no longer the container's:
 that section only reports the exit (callbacks, `Reset`), it cannot influence anything else -/
@@ -617,6 +617,13 @@ def runningKs (s : St) : List Nat :=
                  | none => false)
     | none => false
 
+/-- the executing instances whose context is live -/
+def liveKs (s : St) : List Nat :=
+  (runningKs s).filter fun k =>
+    match s.ent[k]? with
+    | some n => !ctxErrOf s n
+    | none => false
+
 def Call.quiet (c : Call) : Bool :=
   match c.st with
   | .parked _ | .finished => true
@@ -629,8 +636,8 @@ def quiescent (s : St) : Bool :=
   s.calls.all Call.quiet && s.insts.all (fun x => !(x.st == .waiting && predClosed s x))
 
 def step (s : St) : Ev → Option St
-  | .quiesce pend run =>
-    if quiescent s ∧ pend = pendingIds s ∧ run = runningKs s then some s else none
+  | .quiesce pend run live =>
+    if quiescent s ∧ pend = pendingIds s ∧ run = runningKs s ∧ live = liveKs s then some s else none
   | e => stepI s e
 
 def Ev.obs : Ev → Option Obs
@@ -644,7 +651,7 @@ def Ev.obs : Ev → Option Obs
   | .emit o => some o
   | .probeCtx k b => some (.probeCtx k b)
   | .probeW a b => some (.probeW a b)
-  | .quiesce p r => some (.quiesce p r)
+  | .quiesce p r l => some (.quiesce p r l)
   | _ => none
 
 def evsOf (s : St) : Obs → List Ev
@@ -659,7 +666,7 @@ def evsOf (s : St) : Obs → List Ev
   | .exitcb j e => [.emit (.exitcb j e)]
   | .probeCtx k b => [.probeCtx k b]
   | .probeW a b => [.probeW a b]
-  | .quiesce p r => [.quiesce p r]
+  | .quiesce p r l => [.quiesce p r l]
 
 def model : OLTS St Ev Obs where
   init := {}
@@ -719,7 +726,8 @@ def Obs.parse : List String → Option Obs
   | ["probe", "w", a, "closed"] => do pure (.probeW (← a.toNat?) true)
   | "quiesce" :: rest => do
     let sp := splitAtSlash rest
-    pure (.quiesce (← pNats sp.1) (← pNats sp.2))
+    let sp2 := splitAtSlash sp.2
+    pure (.quiesce (← pNats sp.1) (← pNats sp2.1) (← pNats sp2.2))
   | _ => none
 
 end UtilModel.Routine
